@@ -28,6 +28,7 @@
 (*                  times arise only that close to a transition)           *)
 (*   C34.date       date d -> midnight instant -> local l: l is on day d,  *)
 (*                  and l is 00:00 of day d whenever that local time exists*)
+(*                  (nothing is asked for a day the zone skipped as a whole)*)
 (*   C34.raised     a conversion raised                                    *)
 (***************************************************************************)
 EXTENDS Integers, Sequences, FiniteSets, SequencesExt
@@ -58,6 +59,10 @@ InSeg(z, j, t) == (j = 1 \/ z.u[j - 1] <= t) /\ (j = NSeg(z) \/ t < z.u[j])
 Interp(z, l) == {j \in 1..NSeg(z) : InSeg(z, j, l + z.o[j])}
 \* the transitions whose gap contains l
 GapsAt(z, l) == {k \in 1..NTr(z) : z.u[k] - z.o[k] <= l /\ l < z.u[k] - z.o[k + 1]}
+
+\* day d (local times Day*d .. Day*(d+1)-1) is skipped as a whole: no instant has that local date
+\* (a zone that moved across the date line); transitions do not interact, so one gap holds it
+DaySkipped(z, d) == \E k \in 1..NTr(z) : z.u[k] - z.o[k] <= Day * d /\ Day * (d + 1) <= z.u[k] - z.o[k + 1]
 
 IndexDt(z, l, f) ==
   LET V == Interp(z, l)
@@ -102,8 +107,9 @@ DateFails(in, out) ==
   LET z == in.z IN
   UNION {LET e == out.dt[n] IN
          IF e.exc # "" THEN {F("C34.raised", "dt", n)}
-         ELSE IF \/ e.l < Day * e.d \/ e.l >= Day * (e.d + 1)
-                 \/ (Interp(z, Day * e.d) # {} /\ e.l # Day * e.d)
+         ELSE IF /\ ~DaySkipped(z, e.d)
+                 /\ \/ e.l < Day * e.d \/ e.l >= Day * (e.d + 1)
+                    \/ (Interp(z, Day * e.d) # {} /\ e.l # Day * e.d)
               THEN {F("C34.date", "dt", n)} ELSE {}
          : n \in 1..Len(out.dt)}
 
@@ -125,12 +131,12 @@ Ok(in, out) == Clauses(in, out) = {}
 
 \* ------------------------------------------------------------------------------------------
 \* Reference solution: the conversions as moment.py intends them (Index / IndexDt); the midnight of a
-\* day is its 00:00 read with IndexDt - or, when 00:00 is skipped, with the offset in force before the
-\* gap (the instant then lies after the gap, on the same day).
+\* day is its 00:00 read with IndexDt - or, when 00:00 is skipped, the first instant after the gap (the
+\* start of the day, unless the day is skipped as a whole).
 RefMidnight(z, d) ==
   LET l == Day * d
   IN IF Interp(z, l) # {} THEN l + z.o[IndexDt(z, l, NoFav)]
-     ELSE l + z.o[MinOf(GapsAt(z, l))]
+     ELSE z.u[MinOf(GapsAt(z, l))]
 
 Ref(in) ==
   LET z == in.z
